@@ -558,7 +558,7 @@ func specBytesEq8(a, b []byte) bool {
 //@ props C04 C16
 //@ requires ctx != nil && (ctx.BitMode == cpu.MODE_16BIT || ctx.BitMode == cpu.MODE_32BIT)
 //@ requires specBranchClass(params.OCode.Kind) == 1 || specBranchClass(params.OCode.Kind) == 3 || specBranchClass(params.OCode.Kind) == 4
-//@ requires ctx.DollarPosition <= 0xFFFFFFFF && 0 <= params.MachineCodeLen && params.MachineCodeLen <= 0x7FFFFFFF
+//@ requires ctx.DollarPosition <= 0xFFFFFFFF && 0 <= params.MachineCodeLen && params.MachineCodeLen <= 1<<40
 //@ ensures[target.jmp16] result1 == nil && params.OCode.Kind == ocode.OpJMP && ctx.BitMode == cpu.MODE_16BIT ==> specBranchOK(16, result0, 1, -1, specCur(params, ctx), specDest(params))
 //@ ensures[target.jmp32] result1 == nil && params.OCode.Kind == ocode.OpJMP && ctx.BitMode == cpu.MODE_32BIT ==> specBranchOK(32, result0, 1, -1, specCur(params, ctx), specDest(params))
 //@ ensures[target.jcc16] result1 == nil && specCC(params.OCode.Kind) >= 0 && ctx.BitMode == cpu.MODE_16BIT ==> specBranchOK(16, result0, 3, specCC(params.OCode.Kind), specCur(params, ctx), specDest(params))
@@ -570,7 +570,7 @@ func specBytesEq8(a, b []byte) bool {
 //@ func handleCALL
 //@ props C04 C16
 //@ requires ctx != nil && (ctx.BitMode == cpu.MODE_16BIT || ctx.BitMode == cpu.MODE_32BIT)
-//@ requires ctx.DollarPosition <= 0xFFFFFFFF && 0 <= params.MachineCodeLen && params.MachineCodeLen <= 0x7FFFFFFF
+//@ requires ctx.DollarPosition <= 0xFFFFFFFF && 0 <= params.MachineCodeLen && params.MachineCodeLen <= 1<<40
 //@ ensures[target] result1 == nil ==> specBranchOK(specMode(ctx.BitMode), result0, 2, -1, specCur(params, ctx), specDest(params))
 //@ relates[shift@C16] params.OCode.Kind != ocode.OpJMP_FAR && ctx.BitMode == ctx_2.BitMode && params.OCode.Kind == params_2.OCode.Kind && params.MachineCodeLen == params_2.MachineCodeLen && specDestOK(params) && specDestOK(params_2) && specDest(params_2) - specCur(params_2, ctx_2) == specDest(params) - specCur(params, ctx) ==> (result1 == nil) == (result1_2 == nil) && (result1 == nil ==> specBytesEq8(result0, result0_2))
 
@@ -616,7 +616,7 @@ func specPow2Upto40(n int) bool {
 
 //@ func handleALIGNB
 //@ props C05 C03
-//@ requires ctx != nil && 0 <= params.MachineCodeLen && params.MachineCodeLen <= 0x7FFFFFFF && ctx.DollarPosition <= 0xFFFFFFFF
+//@ requires ctx != nil && 0 <= params.MachineCodeLen && params.MachineCodeLen <= 1<<40 && ctx.DollarPosition <= 0xFFFFFFFF
 //@ ensures[pow2] result1 == nil ==> len(params.Operands) == 1 && (specPow2Upto40(specAtoi(params.Operands[0])) || specAtoi(params.Operands[0]) > 1<<40)
 //@ ensures[pad] result1 == nil && specPow2Upto40(specAtoi(params.Operands[0])) ==> 0 <= len(result0) && len(result0) < specAtoi(params.Operands[0]) && (int(ctx.DollarPosition)+params.MachineCodeLen+len(result0))%specAtoi(params.Operands[0]) == 0 && forall(0, len(result0), func(k int) bool { return result0[k] == 0 })
 
@@ -688,3 +688,24 @@ func specParseDec64(s string) int {
 //@ props C01
 //@ option with-init
 //@ ensures[enc] result1 == nil && ocode.Kind == 0+specOpRET() ==> len(result0) == 1 && result0[0] == 0xC3
+
+// ---------------------------------------------------------------------------
+// Code generation driver (C14, C10): what a statement's code may depend on and change
+// ---------------------------------------------------------------------------
+
+//@ func processOcode
+//@ props C14 C10 C13
+//@ requires ctx != nil && machineCode != nil && ctx.VS != nil
+//@ requires ctx.BitMode == cpu.MODE_16BIT || ctx.BitMode == cpu.MODE_32BIT
+//@ requires ctx.DollarPosition <= 0xFFFFFFFF && len(*machineCode) <= 1<<40
+//@ ensures[frame] true
+//@ assigns VariantStack
+
+//@ func GenerateX86
+//@ props C14 C10 C03 C13
+//@ requires ctx != nil
+//@ requires ctx.BitMode == cpu.MODE_16BIT || ctx.BitMode == cpu.MODE_32BIT
+//@ requires ctx.DollarPosition <= 0xFFFFFFFF
+//@ loop 0 invariant ctx.VS != nil
+//@ ensures[result] len(result0) == len(ctx.MachineCode)
+//@ assigns CodeGenContext.MachineCode, CodeGenContext.VS, VariantStack
